@@ -1,6 +1,8 @@
 import NA.Model.Cursor
 import NA.Model.CursorLinux
 import NA.Model.CursorHttp
+import NA.Model.CursorRefs
+import NA.Model.CursorBanner
 import NA.Gen.PanicSites
 import NA.Core.IOUtil
 /-!
@@ -63,7 +65,8 @@ def tables : Tables :=
 
 def toDescr (d : NA.Gen.PanicSites.RawDescr) : Descr :=
   { pre := d.pre.toList, template := d.template.map String.toList, ignore := d.ignore,
-    sub := d.sub.map fun s => (s.1.map String.toList, s.2) }
+    sub := d.sub.map fun s => (s.1.map String.toList, s.2),
+    refs := d.refs.map String.toList, subRefs := d.subRefs.map fun l => l.map String.toList }
 
 def descrOf (m : String) : List Descr :=
   if m == "asa" then NA.Gen.PanicSites.asaDescr.map toDescr else NA.Gen.PanicSites.iosDescr.map toDescr
@@ -71,15 +74,6 @@ def descrOf (m : String) : List Descr :=
 def b (s : String) : Bool := s == "1"
 
 /-! ### parse: loop + the panic-relevant part of postprocessParsed + dump -/
-
-def prefixOf (ds : List Descr) (c : Cmd) : Str := (ds.getD c.descr { pre := [], template := [], ignore := false }).pre
-
-/-- group commands by (prefix, name) in order of first appearance. -/
-def groupCmds (ds : List Descr) (cmds : List Cmd) : List ((Str × Str) × List Cmd) :=
-  cmds.foldl (fun acc c =>
-    let k := (prefixOf ds c, c.name)
-    if acc.any (fun g => g.1 = k) then acc.map (fun g => if g.1 = k then (g.1, g.2 ++ [c]) else g)
-    else acc ++ [(k, [c])]) []
 
 def showFail {α : Type} : Res α → Option String
   | .ok _ => none
@@ -90,14 +84,51 @@ def entry (pre name : Str) (c : Cmd) : String :=
   let a := fun (x : Cmd) => (if x.app then "+" else "") ++ str x.orig
   str pre ++ "|" ++ str name ++ "|" ++ a c ++ "|" ++ "|".intercalate (c.sub.map a)
 
+/-- `strings.Cut(s, pat)`. -/
+def cutAt (pat : Str) : Str → Option (Str × Str)
+  | [] => if pat = [] then some ([], []) else none
+  | c :: cs =>
+    if pat.isPrefixOf (c :: cs) then some ([], (c :: cs).drop pat.length)
+    else (cutAt pat cs).map fun (a, b) => (c :: a, b)
+
+def transParts : List Str := [lit "ikev1 transform-set", lit "ikev2 ipsec-proposal"]
+
+/-- `setTransRef` for one command: failure, or the command with its references. -/
+def postTrans (fixed : Bool) (c : Cmd) : Res Cmd :=
+  transParts.foldl (fun r part => r.bind fun c =>
+    let cmdPart := lit " set " ++ part ++ lit " "
+    match cutAt cmdPart c.parsed with
+    | none => .ok c
+    | some (d, names) =>
+      (transRefs fixed c.orig names).bind fun (nl, rs) => .ok { c with ref := nl, parsed := d ++ cmdPart ++ rs }) (.ok c)
+
+/-- a top-level command after `postprocessParsed` (only called when nothing failed). -/
+def postTop (fixed : Bool) (ds : List Descr) (c : Cmd) : Cmd :=
+  let pre := prefixOf ds c
+  if pre = lit "access-list" then
+    match asaACL fixed tables c.orig c.parsed with
+    | .ok (some (p, refs)) => { c with parsed := p, ref := c.ref ++ refs }
+    | _ => c
+  else if pre = lit "crypto map" ∨ pre = lit "crypto dynamic-map" then
+    match postTrans fixed c with
+    | .ok c' => c'
+    | _ => c
+  else c
+
+def postIOSFirst (fixed : Bool) (c0 : Cmd) : Cmd :=
+  { c0 with sub := c0.sub.map fun sc =>
+      match iosACL fixed tables sc.orig sc.parsed with
+      | .ok r => { sc with orig := r.2.1, parsed := r.1, ref := sc.ref ++ r.2.2 }
+      | _ => sc }
+
 def parseAnswer (fixed : Bool) (model : String) (isRaw : Bool) (data : Str) : String :=
   let ds := descrOf model
   match parseConfig fixed ds isRaw data with
   | .diag m => "diag:" ++ str m
   | .panic p => "panic:" ++ showPanic p
   | .ok cmds =>
-    let groups := groupCmds ds cmds
-    -- failures of postprocessParsed, in the order of the code: ASA ACLs, IOS ACLs, aaa-server
+    let groups := buildLookup ds cmds
+    -- failures of postprocessParsed: ASA ACLs, IOS ACLs, transform-sets, aaa-server
     let f1 := (cmds.filter (fun c => prefixOf ds c = lit "access-list")).filterMap
       (fun c => showFail (asaACL fixed tables c.orig c.parsed))
     let iosGroups := groups.filter (fun g => g.1.1 = lit "ip access-list extended")
@@ -105,11 +136,13 @@ def parseAnswer (fixed : Bool) (model : String) (isRaw : Bool) (data : Str) : St
       match g.2 with
       | c0 :: _ => c0.sub.filterMap (fun sc => showFail (iosACL fixed tables sc.orig sc.parsed))
       | [] => []
+    let f4 := (cmds.filter (fun c => prefixOf ds c = lit "crypto map" ∨ prefixOf ds c = lit "crypto dynamic-map")).filterMap
+      (fun c => showFail (postTrans fixed c))
     let f3 := (groups.filter (fun g => g.1.1 = lit "aaa-server")).filterMap
       (fun g => showFail (aaaGroup fixed g.1.2 g.2))
-    -- dump
-    let dump := groups.flatMap fun g =>
-      let pre := if g.1.1 = lit "crypto map" ∧ g.1.2 = [] then lit "crypto map interface" else g.1.1
+    -- the lookup map after postprocessParsed
+    let post : Lookup := groups.map fun g =>
+      let key := if g.1.1 = lit "crypto map" ∧ g.1.2 = [] then (lit "crypto map interface", g.1.2) else g.1
       let l : List Cmd :=
         if g.1.1 = lit "aaa-server" then
           match aaaGroup fixed g.1.2 g.2 with
@@ -117,15 +150,22 @@ def parseAnswer (fixed : Bool) (model : String) (isRaw : Bool) (data : Str) : St
           | _ => g.2
         else if g.1.1 = lit "ip access-list extended" then
           match g.2 with
-          | c0 :: rest =>
-            { c0 with sub := c0.sub.map fun sc =>
-                match iosACL fixed tables sc.orig sc.parsed with
-                | .ok r => { sc with orig := r.2.1 }
-                | _ => sc } :: rest
+          | c0 :: rest => postIOSFirst fixed c0 :: rest
           | [] => []
-        else g.2
-      l.map (entry pre g.1.2)
-    "ok:" ++ joinC RS (f1 ++ f2 ++ f3) ++ String.singleton US ++ joinC RS dump
+        else g.2.map (postTop fixed ds)
+      (key, l)
+    let dump := post.flatMap fun g => g.2.map (entry g.1.1 g.1.2)
+    let refcheck := match checkReferences fixed ds post isRaw with
+      | .ok _ => "ok"
+      | .diag m => "diag:" ++ str m
+      | .panic p => "panic:" ++ showPanic p
+    "ok:" ++ joinC RS (f1 ++ f2 ++ f4 ++ f3) ++ String.singleton US ++ joinC RS dump ++ String.singleton US ++ refcheck
+
+def decAcl (s : String) : List AclLine :=
+  (listOf RS s).map fun e =>
+    match splitOnC GS e with
+    | [a, o, p] => { orig := o.toList, parsed := p.toList, app := a == "1" }
+    | _ => { orig := [], parsed := [], app := false }
 
 /-! ### NSX / PAN-OS encodings -/
 
@@ -247,6 +287,16 @@ def answer (line : String) : String :=
   | ["info", fx, items] =>
     esc <| showRes (fun (x : Bool) => if x then "1" else "0") (Files.loadInfoFile (b fx) ((listOf RS items).map decOpen))
   | ["descr", m] => esc (showDescr (descrOf m))
+  | ["banner", data] =>
+    esc <| showRes str (Banner.removeBanner ((data.replace (String.singleton GS) "\n").toList))
+  | ["nsxheader", data] =>
+    let d := (data.replace (String.singleton GS) "\n").toList
+    esc <| showRes str (Banner.removeHeader (d.length + 1) d)
+  | ["mergeasa", a, b'] =>
+    esc <| showRes (fun (l : List AclLine) => joinC RS (l.map fun x => str x.orig)) (mergeASAACL (decAcl a) (decAcl b'))
+  | ["mergeios", a, bs] =>
+    esc <| showRes (fun (l : List AclLine) => joinC RS (l.map fun x => str x.orig))
+      (mergeIOSACL (decAcl a) ((splitOnC '\x1c' bs).map decAcl))
   | _ => "bad-request"
 
 end NA.Drv.C20
